@@ -186,7 +186,7 @@ theorem accepted_sound (doc : Doc) (tok : PTok) (o : PVOpts) (p : Pres) (r : POp
                               injection h with h1 h2
                               subst h1; subst h2
                               obtain ⟨s1, s2, s3, s4, s5⟩ := C07.p_accepted_sound cl p' htp
-                              refine ⟨q, m, cl, ⟨hn', hqsrc, hr, C02.resolve_sound' doc q o.scope m hr, hb, hs', hc,
+                              refine ⟨q, m, cl, ⟨hn', hqsrc, hr, C02.resolve_embedded doc q o.scope m hr, hb, hs', hc,
                                 by simpa using hd, hi', ?_, hex2, ?_, his2, s1, s2, ?_, rfl, rfl⟩⟩
                               · intro e he
                                 obtain ⟨a, b⟩ := hex1 e he
